@@ -184,6 +184,30 @@ func init() {
 		}
 		RunSpec(c, sel, c.Scale(1500, 40000))
 
+		// the other half of the property: a JSON key extracted without a field list is exposed under its
+		// sanitised name (LogQL.Stage.apply for `| json` uses KeyToLabel.run) and is addressable by it
+		jk := &Spec[LogCase]{
+			What: "JSON keys: `| json` exposes key k under KeyToLabel(k) (LogQL.Stage.apply == Engine.Eval)",
+			Gen: func(r *rand.Rand) LogCase {
+				key := ""
+				for i, n := 0, 1+r.Intn(5); i < n; i++ {
+					key += pick(r, []string{"a", "Z", "0", "9", "_", ".", "-", "/", " ", "é", "b", "http", "method"})
+				}
+				kb, _ := json.Marshal(key)
+				t := LogCase{Stages: []LStage{{Kind: "json"}}, Limit: -1,
+					Recs: []LRec{{TS: 1e9, Body: fmt.Sprintf(`{%s:"v","other":"w"}`, kb)}, {TS: 2e9, Body: fmt.Sprintf(`{%s:"u"}`, kb)}}}
+				if san, ok := safeKeyToLabel(key); ok && san != "" && r.Intn(2) == 0 {
+					t.Stages = append(t.Stages, LStage{Kind: "lblf", Pred: &LPred{Kind: "m", M: &LMatcher{Label: san, Op: "eq", Value: "v"}}})
+				}
+				return t
+			},
+			Req:        func(t LogCase) Sexp { return t.Req() },
+			Impl:       func(t LogCase) Sexp { return logImpl(t, false) },
+			Shrink:     shrinkLogCase,
+			Nontrivial: func(t LogCase, impl Sexp) bool { n, _ := logResultCount(impl); return n > 0 },
+		}
+		RunSpec(c, jk, c.Scale(1500, 40000))
+
 		// K3 probe: two Docker label keys of one container with the same sanitised name
 		k3 := c02Case{Inv: []c02Ctr{{ID: "id0", Names: []string{"/k3"}, Labels: [][2]string{{"a.b", "1"}, {"a-b", "2"}}}},
 			Start: 1700000000e9, End: 1700000100e9}
